@@ -1002,4 +1002,91 @@ theorem witness_of_banded (as : List AssetProblem) (T : Nat) (Is : List (List Na
     · rw [boolVars_nil (blocks as skip 0 Is) (blocks_no_bool as T hB skip 0 Is)]
       rfl
 
+/-! ## Part 2: the builders commute with the restriction of the asset grid
+
+### `sel` -/
+
+theorem sel_map {α β} (f : α → β) : ∀ (m : List Bool) (xs : List α), sel m (xs.map f) = (sel m xs).map f
+  | [], xs => by simp [sel_nil_left]
+  | _ :: _, [] => by simp [sel_nil_right]
+  | true :: m, x :: xs => by simp [sel_map f m xs]
+  | false :: m, x :: xs => by simp [sel_map f m xs]
+
+theorem sel_zipWith {α β γ} (f : α → β → γ) : ∀ (m : List Bool) (xs : List α) (ys : List β),
+    sel m (List.zipWith f xs ys) = List.zipWith f (sel m xs) (sel m ys)
+  | [], xs, ys => by simp [sel_nil_left]
+  | _ :: _, [], ys => by simp [sel_nil_right]
+  | _ :: _, _ :: _, [] => by simp [sel_nil_right]
+  | true :: m, x :: xs, y :: ys => by simp [sel_zipWith f m xs ys]
+  | false :: m, x :: xs, y :: ys => by simp [sel_zipWith f m xs ys]
+
+theorem sel_zip {α β} (m : List Bool) (xs : List α) (ys : List β) :
+    sel m (xs.zip ys) = (sel m xs).zip (sel m ys) := by
+  rw [List.zip_eq_zipWith, List.zip_eq_zipWith, sel_zipWith]
+
+theorem sel_append {α} : ∀ (m1 m2 : List Bool) (xs ys : List α), m1.length = xs.length →
+    sel (m1 ++ m2) (xs ++ ys) = sel m1 xs ++ sel m2 ys
+  | [], m2, [], ys, _ => by simp [sel_nil_left]
+  | [], _, _ :: _, _, h => by simp at h
+  | _ :: _, _, [], _, h => by simp at h
+  | true :: m1, m2, x :: xs, ys, h => by
+    have := sel_append m1 m2 xs ys (by simpa using h)
+    simp [this]
+  | false :: m1, m2, x :: xs, ys, h => by
+    have := sel_append m1 m2 xs ys (by simpa using h)
+    simp [this]
+
+theorem sel_map_self' {α} (p : α → Bool) : ∀ xs : List α, sel (xs.map p) xs = xs.filter p
+  | [] => rfl
+  | x :: xs => by cases h : p x <;> simp [h, sel_map_self' p xs]
+
+theorem mem_of_mem_sel {α} (m : List Bool) (xs : List α) (x : α) (h : x ∈ sel m xs) : x ∈ xs :=
+  (sel_sublist m xs).subset h
+
+theorem sel_all {α} (m : List Bool) (xs : List α) (p : α → Bool) (h : xs.all p = true) : (sel m xs).all p = true := by
+  rw [List.all_eq_true] at h ⊢
+  exact fun x hx => h x (mem_of_mem_sel m xs x hx)
+
+theorem sel_any_false {α} (m : List Bool) (xs : List α) (p : α → Bool) (h : xs.any p = false) :
+    (sel m xs).any p = false := by
+  rw [Bool.eq_false_iff] at h ⊢
+  intro h'
+  obtain ⟨x, hx, hp⟩ := List.any_eq_true.mp h'
+  exact h (List.any_eq_true.mpr ⟨x, mem_of_mem_sel m xs x hx, hp⟩)
+
+theorem sel_length_eq {α β} : ∀ (m : List Bool) (xs : List α) (ys : List β), xs.length = ys.length →
+    (sel m xs).length = (sel m ys).length
+  | [], xs, ys, _ => by simp [sel_nil_left]
+  | _ :: _, [], [], _ => by simp [sel_nil_right]
+  | _ :: _, [], _ :: _, h => by simp at h
+  | _ :: _, _ :: _, [], h => by simp at h
+  | true :: m, x :: xs, y :: ys, h => by
+    have := sel_length_eq m xs ys (by simpa using h)
+    simp [this]
+  | false :: m, x :: xs, y :: ys, h => by
+    have := sel_length_eq m xs ys (by simpa using h)
+    simp [this]
+
+/-- selection by a mask computed from a list = the positions whose entry satisfies the predicate -/
+theorem filter_range_getD {α β} (p : β → Bool) (d' : β) (d : α) : ∀ (ys : List β) (xs : List α),
+    xs.length = ys.length →
+    ((List.range ys.length).filter fun i => p (ys.getD i d')).map (fun i => xs.getD i d) = sel (ys.map p) xs
+  | [], xs, _ => by simp [sel_nil_left]
+  | _ :: _, [], h => by simp at h
+  | y :: ys, x :: xs, h => by
+    have ih := filter_range_getD p d' d ys xs (by simpa using h)
+    rw [List.length_cons, List.range_succ_eq_map, List.filter_cons, List.filter_map, List.map_cons]
+    have e1 : ((fun i => p ((y :: ys).getD i d')) ∘ Nat.succ) = fun i => p (ys.getD i d') := by
+      funext i; simp
+    rw [e1]
+    cases hp : p y
+    · simp only [List.getD_cons_zero, hp, Bool.false_eq_true, if_false, List.map_map, sel_cons_false]
+      rw [← ih]
+      apply List.map_congr_left
+      intro i _
+      simp
+    · simp only [List.getD_cons_zero, hp, if_true, List.map_cons, List.map_map, sel_cons_true]
+      rw [← ih]
+      congr 1
+
 end EAO.SplitBuild
